@@ -197,3 +197,26 @@ Definition vbool (b : bool) : value := VBool b.
 Definition vopt {A} (f : A -> value) (o : option A) : value :=
   match o with Some a => f a | None => VNull end.
 Definition vtag (t : string) (args : list value) : value := VList (VStr t :: args).
+
+(* ---------- generic line runner ----------
+   "<entry> <value>*" -> "<value>"; used by every <Name>Run.v, both extracted
+   to OCaml and evaluated inside Coq (vm_compute) for the cross-check. *)
+Fixpoint lookup_entry {A} (k : string) (l : list (string * A)) : option A :=
+  match l with
+  | [] => None
+  | (k', a) :: r => if String.eqb k k' then Some a else lookup_entry k r
+  end.
+
+Definition run_with (entries : list (string * (list value -> value))) (line : string) : string :=
+  match tokens line with
+  | [] => "!empty"
+  | name :: ts =>
+      match lookup_entry name entries with
+      | None => "!noentry"
+      | Some f =>
+          match parse_vals (S (List.length ts)) ts with
+          | Some args => show_value (f args)
+          | None => "!parse"
+          end
+      end
+  end.
